@@ -288,6 +288,52 @@ def observe(module, cfg, trace_path, timeout=900, env=None, prefix="VIOL"):
     return r.printed(prefix), r
 
 
+def observe_parallel(module, cfg, trace_path, parts=8, timeout=900, env=None, prefix="VIOL"):
+    """observe() for traces whose lines are judged independently of each other (one case / history per line):
+    the file is cut into `parts` pieces judged by as many TLC processes at once; reported line numbers are
+    mapped back to the whole file.  Returns (violations, merged TlcResult-like of the slowest run)."""
+    import threading
+    with open(trace_path) as fh:
+        lines = fh.readlines()
+    n = len(lines)
+    parts = max(1, min(parts, n // 200 or 1))
+    if parts == 1:
+        return observe(module, cfg, trace_path, timeout=timeout, env=env, prefix=prefix)
+    size = (n + parts - 1) // parts
+    res = [None] * parts
+    err = []
+
+    def work(k):
+        try:
+            pp = "%s.part%d" % (trace_path, k)
+            with open(pp, "w") as fh:
+                fh.writelines(lines[k * size:(k + 1) * size])
+            res[k] = observe(module, cfg, pp, timeout=timeout, env=env, prefix=prefix)
+        except Exception as ex:      # noqa
+            err.append(ex)
+    ths = [threading.Thread(target=work, args=(k,)) for k in range(parts)]
+    for t in ths:
+        t.start()
+    for t in ths:
+        t.join()
+    if err:
+        raise err[0]
+    viols = []
+    best = None
+    gen = dist = 0
+    for k, (v, r) in enumerate(res):
+        for x in v:
+            x = dict(x)
+            x["line"] = x["line"] + k * size
+            viols.append(x)
+        gen += r.generated
+        dist += r.distinct
+        if best is None or r.wall > best.wall:
+            best = r
+    best.generated, best.distinct = gen, dist
+    return viols, best
+
+
 # --------------------------------------------------------------------------
 # Known findings
 # --------------------------------------------------------------------------
